@@ -39,6 +39,7 @@ import (
 	"fmt"
 	"io"
 	"io/fs"
+	"math"
 	"os"
 	"os/exec"
 	"os/signal"
@@ -68,6 +69,7 @@ type op struct {
 	C int    `json:"c"`           // content id; -1 = identical to the current content
 	V int    `json:"v,omitempty"` // variant bits: 1 = keep the old directory / delete only the target; 2 = leave the old target alone
 	P int    `json:"p,omitempty"` // pause before the operation (racing mode): 0, 1 = 50us, 2 = 2ms
+	A bool   `json:"a,omitempty"` // alt cases: write the value in another byte form (convergence is required, a new version is unspecified)
 	H bool   `json:"h,omitempty"` // window mode: hold the loop between Value() and the rest of the pass this operation causes, apply the next operation meanwhile
 }
 
@@ -76,17 +78,20 @@ type input struct {
 	Layout  int    `json:"layout"`  // 0 regular file, 1 k8s with ..data, 2 k8s with ..dir, 3 symlink into another directory
 	Backend string `json:"backend"` // args | dials
 	Early   int    `json:"early,omitempty"` // args backend: number of leading ops applied between the initial Value() and Watch()
-	Dec     int    `json:"dec,omitempty"`   // 1: a decoder whose errors wrap sentinel errors (fs.ErrNotExist, ...)
+	Dec     int    `json:"dec,omitempty"`   // 1: a decoder whose errors wrap sentinel errors (fs.ErrNotExist, ...); 2: a decoder whose values hold a NaN
+	Alt     bool   `json:"alt,omitempty"`   // racing/window: operations flagged A write the same value with different bytes (whitespace-only rewrites)
 	Poll    bool   `json:"poll,omitempty"`  // racing: WithPollInterval(3ms); the history may remove and re-create the parent directory
 	Ops     []op   `json:"ops"`
 }
 
 type cfgT struct {
 	A int
+	F float64 // never in the file; the NaN decoder sets it (a value that is not reflect.DeepEqual to itself)
 }
 
 const contentLen = 32
 const firstInvalid = 100
+const altBase = 200
 
 // number of malformed content ids; the last four are degenerate files of other lengths
 const numInvalid = 12
@@ -102,6 +107,14 @@ const (
 // are malformed in various ways.
 func contentBytes(c int) []byte {
 	var s string
+	if c >= altBase && c < altBase+firstInvalid {
+		// the same value as id c-altBase, other bytes: only blanks differ
+		s = fmt.Sprintf(`{ "A" :%d }`, c-altBase)
+		for len(s) < contentLen {
+			s = " " + s
+		}
+		return []byte(s)
+	}
 	switch c {
 	case cidEmpty:
 		return []byte{}
@@ -134,7 +147,7 @@ func contentBytes(c int) []byte {
 
 // contentID is the inverse of contentBytes on what the harness wrote.
 func contentID(b []byte) (int, bool) {
-	for c := 0; c < 2*firstInvalid; c++ {
+	for c := 0; c < altBase+firstInvalid; c++ {
 		if string(contentBytes(c)) == string(b) {
 			return c, true
 		}
@@ -170,6 +183,28 @@ func (d *wrapDecoder) Decode(r io.Reader, t *dials.Type) (reflect.Value, error) 
 		return v, fmt.Errorf("resolving includes of %d bytes: %w (%v)", len(b), sentinels[k%len(sentinels)], err)
 	}
 	return v, nil
+}
+
+// nanDecoder behaves like the JSON decoder, but every value it returns holds a
+// NaN in a field the file never mentions: equal bytes still decode to values
+// that are not reflect.DeepEqual, so "unchanged" must be decided on the bytes.
+type nanDecoder struct{ inner djson.Decoder }
+
+func (d *nanDecoder) Decode(r io.Reader, t *dials.Type) (reflect.Value, error) {
+	v, err := d.inner.Decode(r, t)
+	if err != nil {
+		return v, err
+	}
+	nv := reflect.New(v.Type()).Elem()
+	nv.Set(v)
+	f := nv.FieldByName("F")
+	nan := math.NaN()
+	if f.Kind() == reflect.Ptr {
+		f.Set(reflect.ValueOf(&nan))
+	} else {
+		f.SetFloat(nan)
+	}
+	return nv, nil
 }
 
 // ---------------------------------------------------------------- event hook
@@ -461,6 +496,9 @@ func (w *world) apply(o op, pause func()) {
 		c = w.cur
 	}
 	b := contentBytes(c)
+	if o.A && c < firstInvalid {
+		b = contentBytes(altBase + c)
+	}
 	oldShape, oldIno, oldTarget, oldDir := w.shape, w.ino, w.target, w.targetDir
 	replaced := func() { // the rename replaced the directory entry of the config path
 		w.entryChanged = true
@@ -771,8 +809,11 @@ func setup(in input) *runner {
 		opts = append(opts, file.WithPollInterval(3*time.Millisecond))
 	}
 	var dec dials.Decoder = &djson.Decoder{}
-	if in.Dec == 1 {
+	switch in.Dec {
+	case 1:
 		dec = &wrapDecoder{}
+	case 2:
+		dec = &nanDecoder{}
 	}
 	ws, err := file.NewWatchingSource(w.cfg, dec, opts...)
 	must(err)
@@ -1165,6 +1206,9 @@ func runRacing(in input) driver.Result {
 	if kind == 2 {
 		cid = firstInvalid // unreadable: like malformed content
 	}
+	if cid >= altBase {
+		cid -= altBase // another byte form of the same value
+	}
 	var ob obs
 	fail := func(format string, a ...interface{}) {
 		res.Direct = append(res.Direct, fmt.Sprintf(format, a...))
@@ -1213,6 +1257,9 @@ func runRacing(in input) driver.Result {
 	if !viewGood {
 		fail("the view A=%d is not a good value of the history", ob.last)
 	}
+	if in.Alt {
+		ob.dup = false // the same value in other bytes may or may not give a new version: unspecified
+	}
 	if ob.dup {
 		fail("a new version was reported for content identical to the previous version")
 	}
@@ -1260,6 +1307,9 @@ func runWindow(in input) driver.Result {
 		kind, cid, _ := w.truth()
 		if kind == 2 {
 			cid = firstInvalid
+		}
+		if cid >= altBase {
+			cid -= altBase
 		}
 		ob := r.args.snapshot()
 		points = append(points, fmt.Sprintf("(%s, %s, %s)", coqRead(kind, cid), optN(ob.last), coqfmt.Bool(ob.lastErr)))
@@ -1315,6 +1365,9 @@ func runWindow(in input) driver.Result {
 		ok = ok && point()
 	}
 	ob := r.args.snapshot()
+	if in.Alt {
+		ob.dup = false
+	}
 	if ob.dup {
 		fail("a new version was reported for content identical to the previous version")
 	}
@@ -1412,8 +1465,18 @@ func gen(r *coqfmt.Rng, n int, tier string) []json.RawMessage {
 	}
 	for i := 0; i < n; i++ {
 		in := input{Layout: r.Intn(4), Ops: genOps(r, maxOps)}
-		if r.Chance(1, 3) {
+		switch r.Intn(6) {
+		case 0, 1:
 			in.Dec = 1
+		case 2:
+			in.Dec = 2
+		}
+		if i%4 != 0 && i%4 != 2 && r.Chance(1, 5) {
+			// oracle modes only: some operations write the value in other bytes
+			in.Alt = true
+			for j := range in.Ops {
+				in.Ops[j].A = r.Chance(1, 2)
+			}
 		}
 		if i%4 == 3 {
 			in.Mode, in.Backend = "w", "args"
@@ -1537,6 +1600,15 @@ func corpus() []json.RawMessage {
 	// the believed target directory removed and re-created under the same path inside one pass
 	add(input{Mode: "w", Backend: "args", Layout: 3, Ops: []op{{K: "delete", C: 1}, {K: "link", C: 111, H: true}, {K: "link", C: -1, V: 2}, {K: "rename", C: 2, H: true},
 		{K: "linkto", M: 5, C: 3, V: 1}, {K: "rewrite", C: 4, V: 3}, {K: "rename", C: 5, V: 1}}})
+	// values that are not DeepEqual to themselves (NaN) under identical-bytes rewrites and re-reads: no new version
+	same := []op{{K: "rename", C: -1}, {K: "rewrite", C: -1}, {K: "reload"}, {K: "rename", C: 1}, {K: "rename", C: -1}, {K: "rewritem", C: -1}, {K: "trename", C: -1}, {K: "reload"}}
+	add(input{Mode: "q", Backend: "args", Layout: 0, Dec: 2, Ops: same})
+	add(input{Mode: "q", Backend: "args", Layout: 3, Dec: 2, Ops: same})
+	add(input{Mode: "w", Backend: "args", Layout: 0, Dec: 2, Ops: same})
+	add(input{Mode: "r", Backend: "dials", Layout: 1, Dec: 2, Ops: same})
+	// the dual: the same value in other bytes (blanks only differ): the view must converge; a new version is unspecified
+	add(input{Mode: "w", Backend: "args", Layout: 0, Alt: true, Ops: []op{{K: "rewrite", C: -1, A: true}, {K: "rename", C: 1}, {K: "rename", C: -1, A: true}, {K: "rewrite", C: 2, A: true}, {K: "rewrite", C: -1}}})
+	add(input{Mode: "r", Backend: "dials", Layout: 3, Alt: true, Ops: []op{{K: "rewrite", C: 1, A: true}, {K: "rewrite", C: -1, P: 1}, {K: "rename", C: 2, A: true, P: 2}}})
 	// a change between the initial Value() and Watch()
 	add(input{Mode: "q", Backend: "args", Layout: 0, Early: 1, Ops: []op{{K: "rename", C: 3}, {K: "rewrite", C: 4}}})
 	add(input{Mode: "q", Backend: "args", Layout: 3, Early: 2, Ops: []op{{K: "rewrite", C: 3}, {K: "k8s", C: 4}, {K: "rename", C: 5}}})
@@ -1595,7 +1667,7 @@ func main() {
 		Prop: "C17", CoqImport: "Dials.Check.C17Check", CoqRun: "run_cases",
 		Rule: "histories of 1..12 (thorough 24) operations over {in-place rewrite, truncate+write, atomic rename-over, kubernetes ..data/..dir swap (old directory removed or kept), " +
 			"symlink into another (fresh or EARLIER) directory, atomic replacement of the symlink's target, delete (path or target only), directory in place of the file, explicit reload} x content {fresh valid, identical bytes, earlier valid, malformed incl. the empty file, blanks only, a lone BOM, a single NUL} " +
-			"on 4 initial layouts, a third of the cases with a decoder whose errors wrap fs.ErrNotExist / ErrPermission / ENOENT path errors / ...; half of the cases quiescent-step (compared with the model), a quarter window mode (the loop held inside a pass while the next operation is applied), a quarter racing with pauses {0,50us,2ms}, a fifth of them with the parent directory " +
+			"on 4 initial layouts, a third of the cases with a decoder whose errors wrap fs.ErrNotExist / ErrPermission / ENOENT path errors / ..., a sixth with a decoder whose values hold a NaN (not DeepEqual to themselves), some oracle-mode cases writing the same value in other bytes; half of the cases quiescent-step (compared with the model), a quarter window mode (the loop held inside a pass while the next operation is applied), a quarter racing with pauses {0,50us,2ms}, a fifth of them with the parent directory " +
 			"removed and re-created (poll mode or a final explicit reload), some in poll mode; window cases are non-trivial with >=1 hold that took effect and >=2 operation kinds; " +
 			"non-trivial: >=3 distinct operation kinds and >=2 changes of the file's content; distinct = distinct JSON inputs",
 		Gen: gen, Run: run, Corpus: corpus(),
